@@ -91,9 +91,12 @@ fn snapshot<S: Store>(data: &S) -> (Vec<Value>, Vec<Value>, Vec<Value>) {
 /// Stable key of an error / panic message: the text up to the first digit, colon or parenthesis (TLC matches
 /// known-finding signatures by string equality, so variable parts must be cut off here).
 pub fn msg_key(msg: &str) -> String {
-    let inner = match msg.find("Some(\"") { Some(i) => &msg[i + 6..], None => msg };
+    // messages look like  "<runtime message> | Some(\"<data error> (...)\")"  or  "<runtime message> | None"
+    let (head, tail) = match msg.find(" | ") { Some(i) => (&msg[..i], &msg[i + 3..]), None => (msg, "") };
+    let inner = match tail.find("Some(\"") { Some(i) => &tail[i + 6..], None => head };
+    let inner = if inner.trim().is_empty() { head } else { inner };
     let cut = inner.find(|c: char| c.is_ascii_digit() || c == ':' || c == '(' || c == '@').unwrap_or(inner.len());
-    inner[..cut].trim().chars().take(60).collect()
+    inner[..cut].trim().trim_end_matches('.').chars().take(60).collect()
 }
 
 pub struct RunOpts {
